@@ -15,6 +15,7 @@ import (
 	"context"
 	"errors"
 	"fmt"
+	"runtime"
 	"strings"
 	"testing"
 
@@ -95,6 +96,9 @@ func TestC02RangeFaulty(t *testing.T) {
 		c.delta = 0
 		stopAt := rapid.SampledFrom([]int{-1, -1, 0, 1, 3}).Draw(t, "stopAt")
 		panicAt := rapid.SampledFrom([]int{-1, -1, -1, 0, 1, 2, 4}).Draw(t, "panicAt")
+		// the callback may also unwind without a panic value: runtime.Goexit (what t.FailNow does) — the in-flight
+		// value is not committed then either, so it has to be rolled back just the same
+		byGoexit := panicAt >= 0 && rapid.IntRange(0, 2).Draw(t, "byGoexit") == 0
 		cancelAt := rapid.SampledFrom([]int{-1, -1, 0, 1, 2}).Draw(t, "cancelAt")
 		ctxKind := rapid.SampledFrom([]string{"nil", "live", "live", "cancelled"}).Draw(t, "ctx")
 		var ctx context.Context
@@ -107,7 +111,7 @@ func TestC02RangeFaulty(t *testing.T) {
 			cancel()
 		}
 		defer cancel()
-		trace := []string{fmt.Sprintf("values=%d getFailAt=%d commitFailAt=%d rollbackFails=%v stopAt=%d panicAt=%d cancelAt=%d ctx=%s", n, c.getFailAt, c.comFailAt, c.rbFails, stopAt, panicAt, cancelAt, ctxKind)}
+		trace := []string{fmt.Sprintf("values=%d getFailAt=%d commitFailAt=%d rollbackFails=%v stopAt=%d panicAt=%d byGoexit=%v cancelAt=%d ctx=%s", n, c.getFailAt, c.comFailAt, c.rbFails, stopAt, panicAt, byGoexit, cancelAt, ctxKind)}
 		type call struct {
 			index int
 			value any
@@ -122,11 +126,22 @@ func TestC02RangeFaulty(t *testing.T) {
 				cancel()
 			}
 			if i == panicAt {
+				if byGoexit {
+					runtime.Goexit()
+				}
 				panic(sentinel)
 			}
 			return i != stopAt
 		}
-		res, pv := vkit.Call(func() any { return bigbuff.Range(ctx, c, fn) })
+		var res, pv any
+		exited := true
+		done := make(chan struct{})
+		go func() { // its own goroutine: the callback may end it with Goexit
+			defer close(done)
+			res, pv = vkit.Call(func() any { return bigbuff.Range(ctx, c, fn) })
+			exited = false
+		}()
+		<-done
 
 		// ---- the sequential specification
 		var want []string
@@ -204,7 +219,11 @@ func TestC02RangeFaulty(t *testing.T) {
 				vkit.Fail(t, "C02/range-result", "Range returned %v / panic %v, expected Commit's error\ncase: %v", err, pv, trace)
 			}
 		case "panic":
-			if pv != any(sentinel) {
+			if byGoexit {
+				if !exited {
+					vkit.Fail(t, "C02/range-result", "the callback ended its goroutine with runtime.Goexit, yet Range returned %v / panic %v\ncase: %v", err, pv, trace)
+				}
+			} else if pv != any(sentinel) {
 				vkit.Fail(t, "C02/range-result", "Range returned %v / panic %v, expected the callback's panic to propagate\ncase: %v", err, pv, trace)
 			}
 		}
